@@ -212,6 +212,9 @@ def list_over_list(I, st, node, g, src):
         # [coro_fn(..x..) for x in lst]: a homogeneous batch of coroutines (consumed by asyncio.gather)
         fi_, argmap_ = ev.term
         return Val("CoroList", (fi_, argmap_, z3.And(0 <= i, i < ln, cond), [i], src))
+    if ev.ty == "Awaitable" and ev.term[0] == "opaque_coro":
+        # [handler() for handler in lst]: a batch of user coroutines awaited directly
+        return Val("CoroList", (None, {"$opaque": ev}, z3.And(0 <= i, i < ln, cond), [i], src))
     et = strip_opt(ev.ty)
     cls = "List[%s]" % ty_str(et)
     REG.parse(cls)
